@@ -172,6 +172,25 @@ def run(ctx):
             a0 = strip(t[2][0])
             lid_src = a0 == ("attr", ("param", sp), "_login_id") or any(call_is(x, f"{BASE}._get_login_id") for x in subterms(a0))
             pw_ok = lid_src and strip(t[2][1]) == ("attr", ("param", sp), "_password")
+    # ... the password *sent* is that derivation, made for this request: every value the "password" field of the login body can take is an
+    # encrypt_password(<this login's id>, password) - not a copy kept from an earlier login (a forced re-login gets a new login id)
+    def _ite_leaves(x):
+        x = strip(x)
+        return _ite_leaves(x[2]) + _ite_leaves(x[3]) if x[0] == "ite" else [x]
+    n_pwf = 0
+    for _n2, t2 in login_calls:
+        for x in subterms(t2):
+            if x[0] == "dict":
+                for k_, v_ in x[1]:
+                    if strip(k_) == ("const", "password"):
+                        n_pwf += 1
+                        stale = [lf for lf in _ite_leaves(v_) if not (meth_is(lf, "encrypt_password") and len(lf[2]) == 2)]
+                        if stale:
+                            pw_ok = False
+                            ctx.ob("C19.a", lg.qual, False, "", func=lg.qual, file=file, construct="login body: password",
+                                   fail=f"the password field of the login request can be `{show(stale[0])[:60]}` - a value kept from an earlier login - instead of the "
+                                        "derivation from this login's id: a forced re-login with a new login id is rejected by a conforming server")
+    ctx.count("login_password_fields", n_pwf)
     lid_first = any(call_is(t, f"{BASE}._get_login_id") for n, t in login_calls)
     ctx.ob("C19.a", lg.qual, sid_ok and pw_ok and lid_first, "login fetches the login id, sends the derived password, and stores the response's sessionId for later requests",
            func=lg.qual, file=file, construct="login", fail="login no longer derives the password from the login id / stores the session id of the response")
